@@ -118,7 +118,7 @@ def build(design):
             p.submodules += mods[k]
         else:
             setattr(p.submodules, f"m{k}", mods[k])
-    cd = ClockDomain("sync")
+    cd = S.make_sync_domain(design["spec"].get("negedge", False))
     mods[0].domains.sync = cd
     b0 = S.build_module(S.Spec(dict(design["spec"], stmts=[])), m=mods[0], domain_obj=cd)
     builts = []
@@ -136,6 +136,7 @@ def build(design):
     d.spec = spec
     d.top = mods[0]
     d.cd = cd
+    d.idle, d.act = b0.idle, b0.act
     d.sigs = b0.sigs
     d.inputs = b0.sigs[:spec.ni]
     d.outs = []
